@@ -23,6 +23,8 @@ func main() {
 	c := core.NewCtx(prop, os.Args[2:])
 	var code int
 	switch prop {
+	case "selftest":
+		code = sm.SelfTest(c)
 	case "C09", "C10", "C11", "C12", "C13":
 		code = sm.Check(c)
 	default:
